@@ -14,6 +14,7 @@
 From Coq Require Import QArith ZArith List Bool Arith.
 Import ListNotations.
 Require Import Plinio.Base.Qx Plinio.Model.Masks Plinio.Model.PitCost Plinio.Proofs.PitCost.
+Require Import Plinio.Model.PitCostNet Plinio.Proofs.PitCostNet.
 Local Open Scope nat_scope.
 
 (* ---- the calculator hands the cost function the number of alive bits of the mask export slices with *)
@@ -126,6 +127,60 @@ Proof.
   apply Forall_nil.
 Qed.
 
+(* ================================================================ composition with C09: calculators DERIVED from the graph
+   `nt` is ANY network of the C09 IR (Model/Calc.v: input, full / depthwise conv or linear — searchable or excluded —,
+   BatchNorm, propagating ops, flatten, add / time-cat, features-cat), `CM.wf nt`; `rms` are ARBITRARY rational mask
+   parameters, one record per node, whose binarization `bmask rms` is a mask assignment the repaired sharing can produce
+   (`CM.consistent_b true`: one masker per component, right width, frozen components all ones).  `tr_net nt xd` is the
+   C04 layer list whose input calculators are the terms C09 derives (`CM.input_calc true nt i`); `x_net nt xd rms` is the
+   plain network whose layer widths are C09's exported widths (`CM.xwidths`).  Assumed where the IRs do not line up:
+     xd        per node: conv1d / conv2d / linear, kernel size, bias, output shape per call site (not in C09's IR;
+               a module invoked twice is ONE C09 node here with two call sites of the same input tensor);
+     compat_b  a C09 `Dw` node is a convolution; a C09 `Full` convolution is not statically 1 -> 1 with groups 1
+               (the only case where C09's tag and the lookup's groups == in == out test differ);
+     static_ok_b  (numel only) call sites non-empty, kernel rank matches the type, depthwise width >= 1.
+   dw_consistent is no longer a premise: it follows from C09_sharing_sound. *)
+Theorem C04_net_dw_consistent_derived : forall nt xd rms,
+  CM.wf nt = true -> CM.consistent_b true nt (bmask rms) = true -> compat_b nt xd = true -> length rms = length nt ->
+  dw_consistent (tr_net nt xd) rms.
+Proof. exact derived_dw_consistent. Qed.
+
+(* the exported layer list (C04) is the network with C09's exported widths *)
+Theorem C04_net_export_widths_are_C09 : forall nt xd rms,
+  CM.wf nt = true -> CM.consistent_b true nt (bmask rms) = true -> compat_b nt xd = true -> length rms = length nt ->
+  export_net (tr_net nt xd) rms = x_net nt xd rms.
+Proof. exact export_net_is_x_net. Qed.
+
+Theorem C04_net_cost_discrete_eq_export : forall nt xd rms,
+  CM.wf nt = true -> CM.consistent_b true nt (bmask rms) = true -> compat_b nt xd = true -> length rms = length nt ->
+  forall spec full, groups_blind spec -> no_degenerate (tr_net nt xd) rms ->
+  pit_cost spec (tr_net nt xd) rms true full = plain_cost spec full (x_net nt xd rms).
+Proof. exact net_cost_discrete_eq_export. Qed.
+
+Theorem C04_net_params_is_numel : forall nt xd rms,
+  CM.wf nt = true -> CM.consistent_b true nt (bmask rms) = true -> compat_b nt xd = true -> length rms = length nt ->
+  static_ok_b nt xd = true ->
+  forall full, no_degenerate (tr_net nt xd) rms ->
+  (pit_cost params_spec (tr_net nt xd) rms true full == nq (numel_net full (x_net nt xd rms)))%Q.
+Proof. exact net_params_is_numel. Qed.
+
+(* a concrete network with a residual add, a depthwise layer, an excluded layer, a 3-way cat, BatchNorm, flatten x4:
+   the derived calculators, the exported widths and the costs *)
+Definition exn_net : CM.net :=
+  [CM.NIn 3; CM.NLayer 0 4 CM.Full true; CM.NProp 1 CM.TPlain; CM.NLayer 2 4 CM.Full true; CM.NJoin 2 3 false; CM.NLayer 4 4 CM.Dw true;
+   CM.NLayer 0 2 CM.Full false; CM.NCat [5; 6; 0]; CM.NBn 7 true; CM.NLayer 8 3 CM.Full true; CM.NFlat 9 4 CM.FFlatten; CM.NLayer 10 2 CM.Full true].
+Definition exn_xd (i : nat) : extra :=
+  if Nat.eqb i 11 then mkExtra KLinear [] true [[]] else
+  if Nat.eqb i 5 then mkExtra KConv2d [3; 3] false [[2; 2]; [2; 2]] else mkExtra KConv2d [3; 3] true [[2; 2]].
+Definition exn_a : lmask := mkMask false [1; 0; 0; -7]%Q [] [].
+Definition exn_rms : list lmask :=
+  [dmask; exn_a; dmask; exn_a; dmask; exn_a; dmask; dmask; dmask; mkMask false [0; 3; 0]%Q [] []; dmask; mkMask true [1; 1]%Q [] []].
+Example C04_net_example :
+  CM.wf exn_net = true /\ CM.consistent_b true exn_net (bmask exn_rms) = true /\ compat_b exn_net exn_xd = true /\ length exn_rms = length exn_net /\ static_ok_b exn_net exn_xd = true /\ no_degenerate (tr_net exn_net exn_xd) exn_rms /\ map (fun i => l_calc (tr_layer exn_net exn_xd i)) [1; 3; 5; 9; 11] =
+    [CConst 3; CMod 1; CMod 1; CCat [CMod 5; CConst 2; CConst 3]; CFlat (CMod 9) 4] /\ map lsize (filter (fun l => negb (is_pad_b l)) (x_net exn_net exn_xd exn_rms)) =
+    [(3, 2, 1, [3; 3]); (2, 2, 1, [3; 3]); (2, 2, 2, [3; 3]); (3, 2, 1, [3; 3]); (7, 2, 1, [3; 3]); (8, 2, 1, [])] /\ qpair (pit_cost params_spec (tr_net exn_net exn_xd) exn_rms true true) = (314, 1)%Z /\ numel_net true (x_net exn_net exn_xd exn_rms) = 314 /\ qpair (pit_cost ops_spec (tr_net exn_net exn_xd) exn_rms true false) = (1050, 1)%Z /\ qpair (plain_cost ops_spec false (x_net exn_net exn_xd exn_rms)) = (1050, 1)%Z.
+Proof. vm_compute. repeat split; repeat constructor. Qed.
+
 Print Assumptions C04_in_features_is_alive_count.
 Print Assumptions C04_hyperparameters_are_exported.
 Print Assumptions C04_cost_discrete_eq_export.
@@ -141,3 +196,7 @@ Print Assumptions C04_full_cost_adds_fixed.
 Print Assumptions C04_shared_counts_once.
 Print Assumptions C04_per_invocation_counts_each.
 Print Assumptions C04_invoked_twice.
+Print Assumptions C04_net_dw_consistent_derived.
+Print Assumptions C04_net_export_widths_are_C09.
+Print Assumptions C04_net_cost_discrete_eq_export.
+Print Assumptions C04_net_params_is_numel.
